@@ -175,7 +175,7 @@ func doRaw(client *http.Client, method, url string, body []byte) c07Resp {
 
 func c07Retry(c *Ctx) {
 	client := &http.Client{Transport: &http.Transport{MaxIdleConnsPerHost: 4, ResponseHeaderTimeout: 60 * time.Second}}
-	c.Cases("case", c.N(300, 8000), func(i int, r *rand.Rand) {
+	c.Cases("case", c.N(1500, 40000), func(i int, r *rand.Rand) {
 		var rex *rexNode
 		withRetry := r.IntN(8) != 0
 		if withRetry {
